@@ -329,4 +329,11 @@ def sanitizeNode (F : Facts) (s : Schema) : Except Fault Schema :=
   | some q => .ok { s with types := s.types.map (fun d =>
       if d.name == q then { d with fields := d.fields.filter (fun f => f.name != nodeFieldName) } else d) }
 
+/-- what a merger answers (when gqlparser accepts the printed schema): `sanitize` selects
+    `SanitizeNodeMergerFunc`. A Go panic is the value `.panic` -/
+def run (F : Facts) (sanitize : Bool) (ins : List MergeInput) : Except Fault Schema :=
+  match mergeSchema F ins with
+  | .error e => .error (.err e)
+  | .ok s => if sanitize then sanitizeNode F (reloadView s) else .ok (reloadView s)
+
 end PebblesVerif.Merge
